@@ -100,6 +100,38 @@ def gen_upatch(rng, pad=None):
     return "upatch pad=%d sp=%s sw=%s" % (pad, ",".join(str(p) for p in ptrs), ";".join(tables))
 
 
+def gen_uqsort(rng, n=None, kind=None):
+    """the real quickSort on n elements over a small value domain with a comparison TABLE: a strict order (distinct or
+    repeated values), reversed / already sorted input, or an arbitrary (inconsistent) table - the model mirrors the
+    code, so both must agree for every table; the oracle demands a permutation always and sortedness for orders"""
+    n = rng.choice([0, 1, 2, 3, rng.range(4, 12), rng.range(12, 60), rng.range(60, 200)]) if n is None else n
+    m = rng.range(1, 12)
+    kind = rng.weighted([("order", 5), ("reverse-order", 1), ("preorder", 2), ("random", 3), ("const", 1)]) if kind is None else kind
+    rank = rng.shuffle(list(range(m)))
+    if kind == "preorder":
+        rank = [r // 2 for r in rank]            # ties between different values
+    tab = []
+    for x in range(m):
+        for y in range(m):
+            if kind in ("order", "preorder", "reverse-order"):
+                tab.append("-" if rank[x] < rank[y] else "+" if rank[x] > rank[y] else "0")
+            elif kind == "const":
+                tab.append("-")
+            else:
+                tab.append(rng.choice("-0+"))
+    shape = rng.below(4)
+    if shape == 0 and kind in ("order", "preorder", "reverse-order"):
+        by = sorted(range(m), key=lambda v: rank[v])
+        v = sorted((rng.below(m) for _ in range(n)), key=lambda x: by.index(x))
+        if kind == "reverse-order":
+            v.reverse()
+    elif shape == 1:
+        v = [rng.below(m)] * n
+    else:
+        v = [rng.below(m) for _ in range(n)]
+    return "uqsort sz=%d m=%d v=%s c=%s" % (rng.choice([4, 8, 10]), m, ",".join(str(x) for x in v) or "-", "".join(tab))
+
+
 def gen_utimes(rng, cid):
     b = rng.range(100, 200)
     f = rng.choice([b - 1, b, b + 1, rng.range(50, 250), None])
@@ -112,7 +144,7 @@ def gen_utimes(rng, cid):
 class Fam:
     """a family of programs: progs[0] is the top; every program knows its includes, inherits and function texts"""
 
-    def __init__(self, rng, cid, nprog=None, big=False, saves=None):
+    def __init__(self, rng, cid, nprog=None, big=False, saves=None, sb_force=None):
         self.rng = rng
         self.dir = "c17/w/" + cid
         self.used_names = set()
@@ -150,6 +182,8 @@ class Fam:
             nf = len(p["fns"])
             if p["save"]:
                 p["sb"] = rng.weighted([("top", 4), ("mid", 4), ("end", 3), ("inc-top", 1), ("inc-end", 2), ("toggle-on", 2)])
+                if sb_force and i in sb_force:
+                    p["sb"] = sb_force[i]
             else:
                 p["sb"] = rng.weighted([("none", 3), ("toggle-off", 1)])
             p["sb_at"] = rng.range(1, nf) if nf else 0          # "mid": after this many functions
@@ -309,6 +343,9 @@ class Fam:
             t += '#include "%s"\n' % nm
         for j in p["inh"]:
             t += 'inherit "/%s";\n' % self.obj(j)
+        for g in range(p.get("grow", 0)):
+            # an edit that changes what heirs see: one more global variable and one more public function
+            t += "int grown%d_g = %d;\nint grown%d_f (string s) { return %d + strlen (s); }\n" % (g, 7000 + g, g, 7100 + g)
         for f in p["fns"]:
             if "pre" in f:
                 t += f["pre"].replace("@K@", str(p["k"])) + "\n"
@@ -333,8 +370,9 @@ class Fam:
     def decl(self, i):
         p = self.progs[i]
         ssw = sum(1 for f in p["fns"] if f["kind"] == "sswitch")
-        return "prog %s save=%d inc=%s inh=%s ssw=%d" % (self.path(i), 1 if p["save"] else 0, ",".join(self.inc_list(i)) or "-",
-                                                         ",".join(self.path(j) for j in p["inh"]) or "-", ssw)
+        return "prog %s save=%d inc=%s inh=%s ssw=%d%s" % (self.path(i), 1 if p["save"] else 0, ",".join(self.inc_list(i)) or "-",
+                                                           ",".join(self.path(j) for j in p["inh"]) or "-", ssw,
+                                                           " refuse=1" if p.get("refuse") else "")
 
     def all_names(self):
         names = ["#global_init#"]
@@ -369,8 +407,8 @@ class Fam:
         return toks, expect
 
 
-def sys_case(rng, cid, steps=None, nprog=None, big=False, script=None, mode=None, saves=None):
-    fam = Fam(rng, cid, nprog=nprog, big=big, saves=saves)
+def sys_case(rng, cid, steps=None, nprog=None, big=False, script=None, mode=None, saves=None, sb_force=None):
+    fam = Fam(rng, cid, nprog=nprog, big=big, saves=saves, sb_force=sb_force)
     t = 1000
     L = ["clean /" + fam.dir]
     for nm in sorted(fam.incs):
@@ -394,22 +432,33 @@ def sys_case(rng, cid, steps=None, nprog=None, big=False, script=None, mode=None
     mode = mode or rng.choice(["reload", "reloadp"])
     names = fam.all_names()
 
-    def reload():
+    reference = rng.chance(1, 2)
+
+    def reload(first=False):
         nonlocal t
         t += 10
         L.append("now %d" % t)
         L.append("intern " + " ".join(hx(n) for n in rng.shuffle(names)))
+        if reference and not first:
+            # what the current sources compile to (a process of its own, binaries neither read nor written): the
+            # program a binary load yields in the reload that follows is compared with THIS, not with an older compile
+            L.append("reloadf " + " ".join(objs))
         L.append(mode + " " + " ".join(objs))
         t += 10
 
-    reload()           # the first compile
+    reload(True)       # the first compile
+    if mode == "reload" and rng.chance(1, 2):
+        # the bytes of the binaries just written, read by the model's own decoder
+        for o in objs:
+            L.append("bindump " + o)
     if script is None:
         nsteps = rng.range(1, 5) if steps is None else steps
         script = []
         for _ in range(nsteps):
             script.append(rng.weighted([("nothing", 6), ("edit-src", 3), ("edit-inc", 3), ("touch-inh", 2), ("touch-src", 2),
                                         ("touch-inc", 1), ("simul-restart", 2), ("restart", 1), ("equal-inc", 1),
-                                        ("simul-norestart", 1), ("edit-parent-inc", 2), ("damage", 2), ("foreign", 2), ("moved", 1), ("badload", 1)]))
+                                        ("simul-norestart", 1), ("edit-parent-inc", 2), ("damage", 2), ("foreign", 2), ("moved", 1), ("badload", 1),
+                                        ("parent-noreload", 3), ("parent-drops-pragma", 3), ("parent-refused", 3)]))
     for act in script:
         t += 1
         which = None
@@ -474,6 +523,66 @@ def sys_case(rng, cid, steps=None, nprog=None, big=False, script=None, mode=None
                 fam.incs[nm]["k"] += 1
                 L.append("file /%s %s" % (fam.inc_path(nm), hx(fam.inc_text(nm))))
                 L.append("mtime /%s %d" % (fam.inc_path(nm), t))
+        elif act == "parent-noreload" and len(fam.progs) > 1:
+            # a parent is edited so that its variables and functions shift, but stays loaded as it was; programs above
+            # it are compiled again (against the old parent in memory) and saved; the following full reload compiles the
+            # parent from its new source
+            i = rng.range(1, len(fam.progs) - 1) if which is None else which
+            fam.progs[i]["grow"] = fam.progs[i].get("grow", 0) + 1
+            L.append("file /%s %s" % (fam.path(i), hx(fam.text(i))))
+            L.append("mtime /%s %d" % (fam.path(i), t))
+            if mode == "reload":
+                # (in a case whose reloads each run in a process of their own nothing stays loaded: only the edit remains)
+                keep = rng.range(1, i)
+                t += 10
+                L.append("now %d" % t)
+                L.append("intern " + " ".join(hx(n) for n in rng.shuffle(names)))
+                # the programs after `|` stay loaded as they are; they are dumped like the others
+                L.append("reload " + " ".join(objs[:keep]) + " | " + " ".join(objs[keep:]))
+                t += 10
+        elif act == "parent-refused" and len(fam.progs) > 1:
+            # from now on the master refuses to have a saved parent saved again (its binary on disk becomes a leftover), and
+            # something only that parent was built from changes: one of its headers, or a program it inherits
+            cand = [i for i in range(1, len(fam.progs)) if fam.progs[i]["save"]]
+            if which is not None:
+                cand = [i for i in cand if i == which]
+            if cand:
+                i = rng.choice(cand)
+                fam.progs[i]["refuse"] = True
+                L.append("file /c17/nosave/%s 00" % fam.path(i))
+                L.append(fam.decl(i))
+                above = set(nm for j in range(i) for nm in fam.progs[j]["inc"])
+                heads = [nm for nm in fam.progs[i]["inc"] if nm not in above]
+                below = [j for j in range(i + 1, len(fam.progs))]
+                if heads and (not below or rng.chance(1, 2)):
+                    nm = rng.choice(heads)
+                    fam.incs[nm]["k"] += 1
+                    L.append("file /%s %s" % (fam.inc_path(nm), hx(fam.inc_text(nm))))
+                    L.append("mtime /%s %d" % (fam.inc_path(nm), t))
+                elif below:
+                    j = rng.choice(below)
+                    fam.progs[j]["grow"] = fam.progs[j].get("grow", 0) + 1
+                    L.append("file /%s %s" % (fam.path(j), hx(fam.text(j))))
+                    L.append("mtime /%s %d" % (fam.path(j), t))
+                else:
+                    fam.progs[i]["k"] += 1
+                    L.append("file /%s %s" % (fam.path(i), hx(fam.text(i))))
+                    L.append("mtime /%s %d" % (fam.path(i), t))
+        elif act == "parent-drops-pragma":
+            # the header that carries a parent's `#pragma save_binary` is edited and loses it: the parent is compiled again
+            # but not saved again, its binary on disk is a leftover older than what the parent in memory was built from
+            cand = [i for i in range(1, len(fam.progs)) if fam.progs[i]["save"] and fam.progs[i].get("sb") in ("inc-top", "inc-end")]
+            if which is not None:
+                cand = [i for i in cand if i == which]
+            if cand:
+                i = rng.choice(cand)
+                nm = fam.progs[i]["sbinc"]
+                fam.incs[nm]["pragma"] = False
+                fam.incs[nm]["k"] += 1
+                fam.progs[i]["save"] = False
+                L.append("file /%s %s" % (fam.inc_path(nm), hx(fam.inc_text(nm))))
+                L.append("mtime /%s %d" % (fam.inc_path(nm), t))
+                L.append(fam.decl(i))
         elif act == "restart":
             L.append("restart " + " ".join(objs))
         reload()
@@ -484,8 +593,10 @@ def sys_case(rng, cid, steps=None, nprog=None, big=False, script=None, mode=None
 def unit_case(rng, cid):
     L = []
     for _ in range(rng.range(3, 8)):
-        k = rng.weighted([("usort", 6), ("ureloc", 1), ("upatch", 4), ("utimes", 1)])
-        if k == "usort":
+        k = rng.weighted([("usort", 6), ("ureloc", 1), ("upatch", 4), ("utimes", 1), ("uqsort", 4)])
+        if k == "uqsort":
+            L.append(gen_uqsort(rng))
+        elif k == "usort":
             L.append(gen_usort(rng))
         elif k == "ureloc":
             L.append(gen_ureloc(rng))
@@ -511,6 +622,11 @@ def boundary():
                                 "upatch pad=33000 sp=4096,8192,100 sw=0:10,1:11,2:12",
                                 "upatch pad=32767 sp=4096,8192,100 sw=2:10,1:11,0:12;-",
                                 "upatch pad=0 sp=1 sw=-"]))
+    B.append(E.Case("b-qsort", ["uqsort sz=4 m=1 v=- c=0", "uqsort sz=8 m=1 v=0 c=0", "uqsort sz=10 m=2 v=1,0 c=0-+0",
+                                "uqsort sz=10 m=2 v=0,1 c=0-+0", "uqsort sz=8 m=3 v=2,0,1,0 c=0--+0-++0",
+                                "uqsort sz=8 m=3 v=2,2,2,2,2 c=0--+0-++0", "uqsort sz=8 m=2 v=0,1,0,1,0,1 c=----",
+                                "uqsort sz=8 m=2 v=0,1,0,1,0,1 c=++++", "uqsort sz=4 m=2 v=1,1,0,0,1 c=0+-0"] +
+                    [gen_uqsort(rng, n, k) for n in (2, 3, 7, 64, 249) for k in ("order", "random")]))
     B.append(E.Case("b-times", ["utimes 100 99 /c17/w/bt/x", "utimes 100 100 /c17/w/bt/x", "utimes 100 101 /c17/w/bt/x",
                                 "utimes 100 none /c17/w/bt/x"]))
     for k, script in enumerate([["nothing"], ["edit-inc"], ["touch-inh"], ["simul-restart"], ["equal-inc", "touch-inc"],
@@ -539,6 +655,41 @@ def boundary():
             c = sys_case(E.Rng(seed + 10 * k), "u%d_%d" % (k, seed), nprog=len(saves), script=script, saves=saves,
                          mode=["reloadp", "reload"][seed % 2])
             c.id = "b-sys-unsaved-%d-%d" % (k, seed)
+            B.append(c)
+    # a parent edited (variables and functions shift) but not loaded again while its heirs are compiled and saved
+    for k, (saves, script) in enumerate([([True, False], ["parent-noreload"]), ([True, True], ["parent-noreload", "nothing"]),
+                                         ([True, False, False], [("parent-noreload", 2)]), ([True, True, False], [("parent-noreload", 2), "nothing"]),
+                                         ([True, False, True], [("parent-noreload", 1), "restart"]),
+                                         ([True, False], ["parent-noreload", "parent-noreload", "edit-src"])]):
+        for seed in (7400, 7401):
+            c = sys_case(E.Rng(seed + 10 * k), "n%d_%d" % (k, seed), nprog=len(saves), script=script, saves=saves,
+                         mode=["reloadp", "reload"][seed % 2])
+            c.id = "b-sys-parent-noreload-%d-%d" % (k, seed)
+            B.append(c)
+    # a parent whose binary on disk is a leftover: the header with its pragma is edited and drops it (parent compiled again,
+    # not saved again); then nothing / further edits at other levels; chains of 2, 3 and 4 programs
+    for k, (saves, force, script) in enumerate([
+            ([True, True], {1: "inc-end"}, [("parent-drops-pragma", 1), "nothing"]),
+            ([True, True], {1: "inc-top"}, [("parent-drops-pragma", 1), "edit-parent-inc", "nothing"]),
+            ([True, True, True], {2: "inc-end"}, [("parent-drops-pragma", 2), "nothing"]),
+            ([True, True, True], {1: "inc-end"}, [("parent-drops-pragma", 1), ("edit-src", 2), "nothing"]),
+            ([True, False, True], {2: "inc-top"}, [("parent-drops-pragma", 2), "nothing", "restart"]),
+            ([True, True, True, True], {2: "inc-end", 3: "inc-end"}, [("parent-drops-pragma", 3), ("parent-drops-pragma", 2), "nothing"])]):
+        for seed in (7500, 7501):
+            c = sys_case(E.Rng(seed + 10 * k), "l%d_%d" % (k, seed), nprog=len(saves), script=script, saves=saves, sb_force=force,
+                         mode=["reloadp", "reload"][seed % 2])
+            c.id = "b-sys-leftover-binary-%d-%d" % (k, seed)
+            B.append(c)
+    for k, (saves, script) in enumerate([([True, True], [("parent-refused", 1), "nothing"]),
+                                         ([True, True, True], [("parent-refused", 1), "nothing"]),
+                                         ([True, True, False], [("parent-refused", 1), "nothing", "restart"]),
+                                         ([True, True, True], [("parent-refused", 2), "nothing"]),
+                                         ([True, True, True, True], [("parent-refused", 2), ("parent-refused", 1), "nothing"]),
+                                         ([True, True], [("parent-refused", 1), "edit-src", "nothing"])]):
+        for seed in (7600, 7601, 7602):
+            c = sys_case(E.Rng(seed + 10 * k), "r%d_%d" % (k, seed), nprog=len(saves), script=script, saves=saves,
+                         mode=["reloadp", "reload"][seed % 2])
+            c.id = "b-sys-refused-resave-%d-%d" % (k, seed)
             B.append(c)
     for k in range(4):
         c = sys_case(E.Rng(7300 + k), "e%d" % k, nprog=2, script=["badload", "nothing"], mode="reload")
@@ -569,6 +720,7 @@ def histogram(cases, impl):
     h = {"unit_cases": 0, "sys_cases": 0, "reloads": 0, "binary_used": 0, "stale": 0, "needs_inherit": 0, "saves": 0,
          "permuted_reloads": 0, "damaged_binaries": 0, "switch_tables": 0, "programs_dumped": 0, "usort": 0, "upatch": 0, "call_results": 0}
     h["fresh_process_reloads"] = sum(1 for c in cases for l in c.lines if l.startswith("reloadp "))
+    h["reference_compiles"] = sum(1 for c in cases for l in c.lines if l.startswith("reloadf "))
     h["string_case_expectations"] = sum(1 for c in cases for l in c.lines if l.startswith("expect "))
     pos = {}
     for c in cases:
@@ -617,6 +769,10 @@ def histogram(cases, impl):
                 h["switch_tables"] += 1
             elif t[0] == "R":
                 h["call_results"] += 1
+            elif t[0] == "binsum":
+                h["binary_files_decoded"] = h.get("binary_files_decoded", 0) + 1
+            elif t[0] == "qs":
+                h["uqsort"] = h.get("uqsort", 0) + 1
             elif t[0] == "ft":
                 h["usort"] += 1
             elif t[0] == "sw":
